@@ -51,6 +51,23 @@ add("C14", "exploration",
     "Every value of the structured alphabets through every offered encode/decode pair, every wrong-password variant refused, every (certificate, key) pair over 5 identities accepted by each loader iff matching.",
     "public points computed by refsm2; library-internal salts/IVs are not observed", "DESIGN.md §3 C14")
 
+add("C09", "exploration",
+    "exhaustive one-at-a-time product (58 template variations x 4 signer types x signature algorithms; CSRs; CRLs) with parse-back comparison and verification, plus fault enumeration over every byte of the signed part and signature value",
+    "Every template variation over the documented fields, for SM2/RSA/P-256/P-384 signers and for the default and every same-family algorithm, is created, parsed back field by field, verified under the issuer and refuted under other keys; every single-byte change of TBS and signature of one certificate per signer must fail to parse or verify.",
+    "issuer certificates for RSA/ECDSA come from Go's crypto/x509; library-internal signature randomness is not observed", "DESIGN.md §3 C09")
+add("C10", "model_checking",
+    "exhaustive enumeration of small PKI topologies (root subsets x intermediate subsets x leaves x insertion orders; leaves x times x host names x usages; constrained CAs) over real certificates, each Verify compared with a brute-force reference path validator on ground-truth descriptors",
+    "All topologies within the bound over a universe of ~65 real SM2 certificates covering validity, CA bit, certSign, path length, forged signatures, cross-signing, same-name-other-key, loops and name constraints: Verify accepts iff the reference finds a path satisfying the statement, and every returned chain is checked link by link; rejections that depend on pool insertion order are minimised to the smallest failing topology.",
+    "the reference implements exactly the statement's conditions; where the statement is silent the alphabet avoids the question (DESIGN §3 C10)", "DESIGN.md §3 C10")
+add("C17", "exploration",
+    "exhaustive product enumeration for enveloped/signed data and PKCS#12 (content lengths x algorithms x orderings x recipients; tamperings; passwords) plus fault enumeration over every byte and truncation of PKCS#12 bundles",
+    "Every recipient recovers the content and every wrong holder (other key, non-recipient certificate, other ordering, wrong key type) gets an error; SM2 signed data built independently in the GM/T 0010 layout verifies and each of 8 tamperings is rejected; PKCS#12 bundles round-trip for 4 password shapes, every other password is refused and no byte change or truncation yields a different key or certificate.",
+    "process-wide PKCS#7 content-encryption selector changed only between single-threaded units", "DESIGN.md §3 C17")
+add("C18", "fault_enumeration",
+    "fault enumeration exactly as the quantifier states (every truncation, 7 substitutions per byte, 5 length rewrites and 13 tag swaps per TLV, nesting depths, all 1- and 2-byte inputs) over a library-generated corpus for 26 decoder entry points, each call isolated with panic capture, allocation budget and watchdog",
+    "Every fault of the catalogue at every position of every corpus entry is applied to every decoder; a call must return (value or error) without panic, within an allocation budget and a step/time budget re-checked five times; TLS message and ticket parsers are reached through real endpoints in the C15/C16 checks.",
+    "password-KDF iteration counts are never mutated and password-based decoders are exempt from timing, as the statement allows", "DESIGN.md §3 C18")
+
 NA_REASON = "check not built yet in this session (work in progress; DESIGN.md §3 describes the planned bounded exhaustive check)"
 
 def main():
